@@ -9,15 +9,15 @@ NOTE_SAN = ("Trusted base: g++ 12 / clang 14 sanitizer runtimes, libstdc++ refer
 
 CHECKS = {
     "C01": ("exploration", "5 C01", "differential runtime monitoring: random and coverage-guided (libFuzzer) operation histories vs std::vector model under ASan/UBSan",
-            "Every public call of generated operation histories (34 configurations quick, 74 thorough: flavour x N x element category incl. raw int/double, over-aligned and "
+            "Every public call of generated operation histories (40 configurations quick, 78 thorough: flavour x N x element category incl. raw int/double, over-aligned, 96-byte and "
             "throwing-move elements x size_type x allocator x range source (7 kinds incl. single-pass, non-contiguous random access and values of another type) x C++14/17/20) is compared step by step with std::vector; a coverage-guided stage (libFuzzer "
-            "mutating the byte string every generator decision is read from; 4 configurations x 25k inputs quick, 16 x 150k thorough) drives the same engine and monitors; "
+            "mutating the byte string every generator decision is read from; 4 configurations x 25k inputs quick, 16 x 150k thorough) drives the same engine and monitors; one history in twelve is large-scale (lengths up to 2800, inline capacities up to 1500); "
             "exploration is the right level because the property quantifies over unbounded histories."),
     "C02": ("exploration", "5 C02", "runtime monitoring: element identity/lifetime ledger + ASan/UBSan/LSan over random and coverage-guided (libFuzzer) histories",
             "Instrumented element types record every constructor/assignment/destructor; the ledger is checked after every call and at the end of every history, in the "
             "vector, FlatSet and SmallSet engines and in the nested-containers engine (containers as elements of containers)."),
     "C05": ("exploration", "5 C05", "runtime monitoring: entitlement shadow + allocator ledger + malloc hook over random and coverage-guided (libFuzzer) histories",
-            "The inline-storage promise is monitored on every call of histories steered around N."),
+            "The inline-storage promise is monitored on every call of histories steered around N (element kinds incl. potentially-throwing moves, 96-byte and over-aligned elements)."),
     "C06": ("exploration", "5 C06", "runtime monitoring: allocator ledger (pointer->count, family) + LeakSanitizer over random and coverage-guided histories, allocator-fault sweep, reallocate grid",
             "Every allocate/deallocate/reallocate of instrumented allocators is checked online; outstanding blocks at the end of each history; direct grid driver of "
             "BasicAllocatorWrapper::reallocate; the allocator-fault sweep of the vector fault engine is judged by the same ledger."),
@@ -26,45 +26,45 @@ CHECKS = {
     "C03": ("exploration", "5 C03", "differential runtime monitoring: random FlatSet histories vs std::set model, comparator provenance, under ASan/UBSan",
             "Every call of generated histories over pools of FlatSets (comparators less/greater/coarse/stateful/transparent x underlying amc::vector/"
             "SmallVector/FixedCapacityVector/std::vector x element category) is compared with std::set built with the same comparator object; the sets of a pool get "
-            "comparator objects in different states where the type has state; heterogeneous keys equivalent to a run of several elements."),
+            "comparator objects in different states where the type has state; heterogeneous keys equivalent to a run of several elements; the non-standard accessors (at, data, operator[]) included."),
     "C04": ("exploration", "5 C04", "runtime monitoring: complete small-scope state-space execution of the real SmallSet + random histories vs std::set model",
             "Breadth-first execution of every operation from every reachable (content,state) of SmallSets with N<=3 over 5 keys, every ordered state pair under "
             "swap/compare/merge (second operand with a comparator object in another state), and random histories for N in {4,8} incl. transparent comparators with "
             "heterogeneous int / run keys; exhaustive inside the small scope, a sample beyond."),
     "C11": ("exploration", "5 C11", "runtime monitoring: iterator-validity oracle (fresh walk) over the complete small-scope SmallSet state space + random histories",
             "Every iterator returned by the library is classified against a fresh begin()..end() walk before being dereferenced; walks and erase loops are "
-            "capped by logical step counts."),
+            "capped by logical step counts; a self move-assignment during an erase costs the element its value."),
     "C12": ("exploration", "5 C12", "runtime monitoring: complete enumeration of (content, hint, value, form) executed on the real FlatSet, judged against plain insert and std::set",
             "All subsets of a 6-key (thorough: 9-key) domain x all hints x all values x 3 forms per (comparator, underlying vector) configuration; exhaustive in that scope."),
     "C18": ("exploration", "5 C18", "runtime monitoring: allocator-call / relocation counters with online bounds during append sweeps",
             "Counters on the instrumented allocators (or the malloc hook for stock allocators) and on element move constructors are judged after every single append; "
             "plus sweeps on full vectors of 0.7e9..4.29e9 one-byte elements living in a lazily committed mapping (32-bit signed/unsigned and 64-bit size types)."),
     "C19": ("exploration", "5 C19", "runtime monitoring: comparator-call counter read around every lookup / insertion, judged against the stated bounds",
-            "Every key rank and gap for n<=64, sampled ranks up to 4096 (20000 thorough), every correct hint, inline SmallSets N=1..8 at every fill; element types of 1, 2, 8 and more bytes."),
+            "Every key rank and gap for n<=64, sampled ranks up to 4096 (20000 thorough), every correct hint, inline SmallSets N=1..8 at every fill, SmallSets over a FlatSet in their large state; element types of 1, 2, 8, 24 and 96 bytes."),
     "C08": ("exploration", "5 C08", "runtime monitoring: complete boundary grid executed on the real containers with snapshot/ledger/canary oracles under ASan/UBSan",
             "Every fill near the limit x every growing operation x positions x counts (incl. size_type extremes and range lengths beyond the size_type maximum) for small N and 8-bit size types; the expected "
             "verdict is computed independently in uintmax_t; exhaustive inside that grid."),
     "C09": ("fault_enumeration", "5 C09", "fault injection: every index of the throwing-capable events (element construction/copy/assignment, allocator calls) of every scenario, judged by ledgers and snapshots",
-            "Each scenario is first run fault-free to count its fault points, then re-run once per fault index; vectors (27 operation forms x 5 capacity states, C++14/17/20) and sets (13 forms); plus real "
+            "Each scenario is first run fault-free to count its fault points, then re-run once per fault index; vectors (27 operation forms x 5 capacity states, C++14/17/20) and sets (13 forms); element kinds where only the copy constructor or only the copy assignment can throw; ranges of values of another type (the conversion throws); plus real "
             "malloc/realloc failures of amc::allocator for impossible capacities."),
     "C10": ("exploration", "5 C10", "differential runtime monitoring: complete small-scope grid of aliased calls vs std::vector fed with a pre-copied value, plus aliased calls in random and coverage-guided histories",
             "size x position x source index x count x spare-capacity mode x 11 call forms (incl. emplace from references to members of an element) per configuration, C++14/17/20; exhaustive in that scope."),
     "C13": ("exploration", "5 C13", "runtime monitoring: state-pair grid of swap2 over configuration pairs with model/ledger/canary oracles, plus swap2-heavy random and coverage-guided histories, under ASan/UBSan",
-            "Every ordered pair of operand states (inline, heap exact, heap with room, heap cleared, adopted small buffer) x sizes for 12 (thorough 33) type pairs, "
+            "Every ordered pair of operand states (inline, heap exact, heap with room, heap cleared, adopted small buffer) x sizes for 19 (thorough 42) type pairs (incl. mixed growing policies and 96-byte elements), "
             "both call directions, with follow-up scripts; impossible exchanges must throw and change nothing."),
     "C15": ("fault_enumeration", "5 C15", "fault injection + differential: every amc:: memory algorithm x length x iterator category x value category x throw index at -std=c++11/14/17/20 under ASan/UBSan",
             "The algorithm results are compared with the standard's wording and the element ledger proves clean-up after each injected constructor fault; homogeneous and "
             "converting (destination type constructed from another source type) ranges."),
     "C14": ("exploration", "5 C14", "runtime monitoring: containers relocated by memcpy at random quiescent points of monitored histories (differential re-run without relocation) + trait table vs conjunction of parts",
             "The byte-copied container continues the history under the model, ledger and sanitizer monitors; the abandoned block is poisoned and freed so that a stale "
-            "self pointer is a use-after-free. A nested-containers engine lets outer amc vectors relocate inner amc containers according to their own declaration."),
+            "self pointer is a use-after-free. A nested-containers engine lets outer amc vectors relocate inner amc containers according to their own declaration. Containers of over-aligned elements are relocated between addresses of different residue modulo the element alignment."),
     "C16": ("exploration", "5 C16", "differential runtime monitoring: byte comparison of transcripts of one generated script program across a build matrix, all under UBSan; feature probes",
-            "{c++11,14,17,20} x {extras,pedantic} x {assert,NDEBUG} x {-O0,-O2}: 8 pairwise-covering builds quick, all 32 thorough; range arguments come from seven iterator source kinds."),
+            "{c++11,14,17,20} x {extras,pedantic} x {assert,NDEBUG} x {-O0,-O2}: 8 pairwise-covering builds quick, all 32 thorough; range arguments come from seven iterator source kinds and from ranges of another integral type of the same size."),
     "C17": ("other", "5 C17", "observed-value monitor: generated probe programs print compile-time constants, judged by an independent oracle written from the statement",
             "The property is decided by the compiler; the probe merely exposes what the compiler computed for a matrix of element shapes x categories x N x size_type x "
             "standard, which the oracle (lib/c17.py) re-derives from sizes and declared attributes only."),
     "C20": ("exploration", "5 C20", "ThreadSanitizer over reader threads sharing one const container, with a positive control and measured burst overlap",
-            "16 (type, state) cases x {2,4,8,16} threads; no race observed on the sampled schedules - not absence of races on all schedules."),
+            "25 (type, state) cases (incl. a comparator with const and non-const call operators) x {2,4,8,16} threads; no race observed on the sampled schedules - not absence of races on all schedules."),
 }
 
 NA_REASON = "check not built yet in this session (engine under construction, see DESIGN.md section 5)"
